@@ -861,4 +861,43 @@ theorem latch_value_end_to_end (c : Circuit) (L : List Nat) (nodes : Array CNode
   rw [mult_law c inp hinp _ hE1 e m ty k hmul, hs, hmset]
   exact latch_value_next_eq nodes (evalNodes nodes env) s r k (get (E e) ty) hk hbool
 
+/-! ## the settling hypothesis is reached whenever the cells stand still long enough -/
+
+/-- If the cut circuit is ranked and, during `T` ticks of constant inputs, the cell entities do not move, then at the
+end every other entity satisfies its own equation: the state has settled around the cells, which is the hypothesis
+of the one-tick theorems above. -/
+theorem settles_around_cells (c : Circuit) (L : List Nat) (rank : Nat → Nat) (hr : (c.cut L).checkRanked rank = true)
+    (inp : Inputs) (s0 : Nat → SigMap) (T : Nat) (hT : ∀ i, rank i < T)
+    (hstill : ∀ t, t < T → ∀ i, L.contains i = true → c.runFrom inp s0 (t + 1) i = s0 i) :
+    ∀ i, L.contains i = false → c.evalEnt inp (c.runFrom inp s0 T) i = c.runFrom inp s0 T i := by
+  have hrk := Circuit.checkRanked_sound (c.cut L) rank hr
+  -- the run of the uncut circuit coincides, up to `T`, with the run of the cut circuit fed with the cells' outputs
+  have hsame : ∀ t, t ≤ T → ∀ i, c.runFrom inp s0 t i = (c.cut L).runFrom (cutInp inp L s0) s0 t i := by
+    intro t
+    induction t with
+    | zero => intro _ i; rfl
+    | succ t ih =>
+      intro ht i
+      have heq : c.runFrom inp s0 t = (c.cut L).runFrom (cutInp inp L s0) s0 t := funext (ih (by omega))
+      cases hL : L.contains i with
+      | true =>
+        rw [hstill t (by omega) i hL]
+        simp only [Circuit.runFrom, Circuit.evalEnt, cutInp, hL, if_true]
+      | false =>
+        simp only [Circuit.runFrom]
+        rw [heq]
+        unfold Circuit.evalEnt
+        simp only [cutInp, hL, Bool.false_eq_true, if_false, cut_kind_not_mem c L i hL, cut_readR, cut_readG]
+  intro i hi
+  have heqT : c.runFrom inp s0 T = (c.cut L).runFrom (cutInp inp L s0) s0 T := funext (hsame T (Nat.le_refl _))
+  obtain ⟨T', rfl⟩ : ∃ T', T = T' + 1 := ⟨T - 1, by have := hT 0; omega⟩
+  have hfix : (c.cut L).evalEnt (cutInp inp L s0) ((c.cut L).runFrom (cutInp inp L s0) s0 (T' + 1)) i =
+      (c.cut L).runFrom (cutInp inp L s0) s0 (T' + 1) i := by
+    rw [← Circuit.runFrom_succ, Circuit.settle_from (c.cut L) _ s0 rank hrk (T' + 1) i (by have := hT i; omega),
+      Circuit.settle_from (c.cut L) _ s0 rank hrk T' i (hT i)]
+  rw [heqT]
+  rw [← hfix]
+  unfold Circuit.evalEnt
+  simp only [cutInp, hi, Bool.false_eq_true, if_false, cut_kind_not_mem c L i hi, cut_readR, cut_readG]
+
 end Facto
